@@ -4,6 +4,7 @@ mod decoder;
 mod diag;
 mod dp;
 mod dplive;
+mod dpfdl;
 mod gap;
 mod gsd;
 mod las;
@@ -35,6 +36,7 @@ fn engine(name: &str) -> Option<(fn(&mut Vec<String>, u64, bool), Box<dyn Execut
         "diag" => Some((diag::gen, Box::new(diag::Exec::default()))),
         "dp" => Some((dp::gen, Box::new(dp::Exec::new()))),
         "dplive" => Some((dplive::gen, Box::new(dplive::Exec::new()))),
+        "dpfdl" => Some((dpfdl::gen, Box::new(dp::Exec::new()))),
         "gap" => Some((gap::gen, Box::new(Stateless(gap::exec)))),
         "station" => Some((station::gen, Box::new(station::Exec::new()))),
         "prm" => Some((prm::gen, Box::new(prm::PrmExec::new()))),
